@@ -375,6 +375,13 @@ void pl_lemma_c4(void)
 {
   year_t y1, y2, qa, qb; diff_t a, b;
   __CPROVER_assume(lemma_c4_REQ(y1, a, y2, b, qa, qb));
+  STEP(FITS64((Z)y1 - (Z)a) && FITS64((Z)y2 - (Z)b), "removing a remainder of the same sign cannot overflow");
+  STEP((Z)(diff_t)(y1 - a) == (Z)400 * (Z)qa && (Z)(diff_t)(y2 - b) == (Z)400 * (Z)qb, "the two reduced years");
+  STEP(FITS64((Z)(diff_t)(y1 - a) - (Z)(diff_t)(y2 - b)), "their difference fits");
+  USE(lemma_dist400_REQ(qa, qb), lemma_dist400_ENS(qa, qb), "dist400");
+  { const diff_t gx = y1 - a; const diff_t gy = y2 - b; const diff_t gc = gx - gy;
+    STEP((Z)gc == (Z)gx - (Z)gy, "no wrap-around");
+    STEP((Z)gc == (Z)400 * ((Z)qa - (Z)qb), "the 64-bit difference is the mathematical one"); }
   __CPROVER_assert(lemma_c4_ENS(y1, a, y2, b, qa, qb), "lemma_c4.ENS");
 }
 void pl_lemma_q400(void)
@@ -389,4 +396,11 @@ void pl_lemma_dd3(void)
   Z qd, od;
   __CPROVER_assume(lemma_dd3_REQ(qd, od));
   __CPROVER_assert(lemma_dd3_ENS(qd, od), "lemma_dd3.ENS");
+}
+
+void pl_lemma_dist400(void)
+{
+  Z x, y;
+  __CPROVER_assume(lemma_dist400_REQ(x, y));
+  __CPROVER_assert(lemma_dist400_ENS(x, y), "lemma_dist400.ENS");
 }
